@@ -33,9 +33,22 @@ def cases(tier, rng):
             out.append((single_query_case(rules, [atom("a"), var(0, "$Q"), var(0, "$R")], 5), "not-not-shape"))
     n = 500 if tier == "quick" else 10000
     out += histgen.random_cases(rng, n, dict(allow_cut=False, allow_print=False), must="(op not")
+    # beyond the small shapes: not over goals that search predicates of 40 clauses and chains 30 links deep, negations nested
+    # 6-9 deep, a not as the 30th goal of a body, 40 candidates filtered by a not
+    from gen import C01
+    big = C01.large_kb()
+    deep = lambda g, k: g if k == 0 else NOT(deep(g, k - 1))
+    zero = C("zero")
+    for body in (AND(C("num", X), NOT(C("reach", X, i(31))), U(Y, X)), AND(C("num", X), NOT(C("reach", i(25), X)), U(Y, X)),
+                 AND(C("num", X), NOT(AND(C("num", Y), bip("greater_than", Y, X))), U(Y, X)), AND(C("n", X), deep(C("reach", X, i(31)), 6), U(Y, X)),
+                 AND(C("n", X), deep(C("reach", i(31), X), 7), U(Y, X)), AND(C("n", X), deep(C("e", X), 9), U(Y, X)),
+                 AND(C("n", X), *([zero] * 30), NOT(C("e", X)), U(Y, X)), AND(C("num", X), NOT(NOT(C("many", X))), U(Y, X))):
+        rules = big + [rule(cplx("a", X, Y), body), fact("a", i(99), i(99))]
+        out.append((single_query_case(rules, [atom("a"), var(0, "$Q"), var(0, "$R")], 45), "not-large"))
     return out
 
-RULE = ("(a) not(G) for 19 goals G (calls with 0/1/many answers, with and without bindings to query variables, "
+RULE = ("(0) large shapes: not over goals that search 40-clause predicates and 30-link chains, negations nested 6-9 deep, a not as the 31st goal of a body, 40 candidates filtered by a not; "
+        "(a) not(G) for 19 goals G (calls with 0/1/many answers, with and without bindings to query variables, "
         "conjunctions, disjunctions, unifications, comparisons, a recursive call, an unknown predicate) at 9 positions of "
         "a clause body (alone, after / before / between multi-answer goals, in a disjunction, twice, followed by a binding "
         "of the same variable), each query asked 7 times; the same with not(not(G)) and not(not(not(G))); (b) random cut-free programs containing not(..). Oracle: every "
